@@ -11,6 +11,8 @@ mod kinds;
 mod prng;
 
 mod c03;
+#[cfg(feature = "serde")]
+mod c16;
 #[cfg(not(feature = "nostd"))]
 mod c12;
 
@@ -64,6 +66,16 @@ macro_rules! scenarios {
         match $name {
             "c03" => {
                 let $s = c03::C03;
+                $body
+            }
+            #[cfg(feature = "serde")]
+            "c16" => {
+                let $s = c16::C16;
+                $body
+            }
+            #[cfg(feature = "serde")]
+            "c16mock" => {
+                let $s = c16::C16Mock;
                 $body
             }
             #[cfg(not(feature = "nostd"))]
